@@ -6,6 +6,13 @@ VERUS = {
     #   g >= 1, g | lhs, g | rhs, a*lhs + (b_sign*|b|)*rhs == g for the ORIGINAL lhs, |b| < lhs when lhs > rhs;
     #   no carry out of the in-place rebuild (debug assertion proved)
     'int_gcd_small': {'file': 'int_gcd_small.rs', 'w32': True},
+    # integer/src/gcd_ops.rs `mod repr`: gcd_ext_dword, gcd_ext_large_dword, gcd_ext_large (bookkeeping after the ASSUMED Lehmer
+    # routine gcd::gcd_ext_in_place: residue = |b|*rhs -/+ g, exact division by lhs, signs, swap), the four ExtendedGcd
+    # dispatch impls, gcd_large_dword, gcd_large, Gcd dispatch (ref, ref):
+    #   gcd_ext: g >= 1, g | x, g | y, s*x + t*y == g;   gcd: g is the greatest common divisor by divisibility;
+    #   gcd(0, 0) / gcd_ext(0, 0) (documented panic) is the precondition.  KNOWN DEFECT excluded by precondition
+    #   gcd_ext_large_pre: smaller Large operand divides the larger one and is > 2 words shorter (gcd_ext(2^320, 2^128) panics)
+    'int_gcd_ops': {'file': 'int_gcd_ops.rs', 'w32': True, 'rlimit': 60},   # gcd_ext_large uses 20-30M of the default 30M
 }
 
 KANI = {
@@ -18,12 +25,34 @@ KANI = {
     },
 }
 
+KANI['gcdo_root'] = {
+    'package': 'dashu-int', 'target': 'integer/src/root.rs', 'file': 'gcdo_root.rs',
+    'harnesses': {
+        'vk_gcdo_root_sqrt_rem_4w': {'kind': 'bounded', 'bound': '4-word input (sqrt_rem_42), palette words with 2 symbolic bits'},
+        'vk_gcdo_root_sqrt_rem_6w': {'kind': 'bounded', 'bound': '6-word input (one recursion level, odd root length), palette words with 2 symbolic bits'},
+        'vk_gcdo_root_sqrt_rem_8w': {'kind': 'bounded', 'tier': 'thorough',
+                                     'bound': '8-word input (one recursion level, even root length), palette words with 2 symbolic bits'},
+    },
+}
+
 PROP_UNITS = {
-    'C12': {'verus': ['int_gcd_small'],
+    'C12': {'verus': ['int_gcd_small', 'int_gcd_ops'],
             'kani': ['gcdo_base'],
             'undecided': ['int_gcd_small ASSUMES (lib/gcdo_stubs.rs, trusted): the Word / DoubleWord instances of the primitive '
                           'ExtendedGcd::gcd_ext return g >= 1, g | a, g | b, s*a + t*b == g with |s| <= b, |t| <= a (|t| < a if '
                           'a > b > 0) -- proved for the u8 instance of the same macro body by the complete Kani harnesses '
                           'vk_base_gcd_gcd_ext_u8 and vk_gcdo_base_gcd_ext_bound_u8; to_sign_magnitude (Kani group int_primitive); '
-                          '<[T]>::fill; mul_dword_in_place (trusted contract, bounded Kani check in group int_mul)']},
+                          '<[T]>::fill; mul_dword_in_place (trusted contract, bounded Kani check in group int_mul)',
+                          'int_gcd_ops ASSUMES (lib/gcdo_ops_stubs.rs, trusted): the Lehmer routines gcd::gcd_in_place / gcd_ext_in_place '
+                          '(integer/src/gcd/lehmer.rs, NOT verified: g is the gcd, left in rhs[..g_len] resp. lhs/rhs by the flag; '
+                          '|b| in lhs[..b_len] with a*lhs + (sign*|b|)*rhs == g for some a) -- a wrong sign or length returned by '
+                          'lehmer.rs is therefore NOT detected; primitive Gcd::gcd / ExtendedGcd::gcd_ext for Word / DoubleWord '
+                          '(u8 instance proved by Kani group base_gcd); cmp::cmp_in_place (numeric order of normalized words); '
+                          'mul::multiply (trusted contract); scratch memory (allocate_slice_copy / _fill; SIZING not verified); '
+                          'lib/repr_stubs.rs (Buffer / Repr)',
+                          'int_gcd_ops: KNOWN DEFECT excluded by precondition gcd_ext_large_pre -- gcd_ext of two multi-word '
+                          'operands where the smaller DIVIDES the larger and is more than two words shorter panics in '
+                          'div::div_rem_in_place (e.g. (UBig::ONE << 320).gcd_ext(&(UBig::ONE << 128))); the three forwarding Gcd '
+                          'impls (`self.as_ref().gcd(..)`) and the UBig/IBig-level macros (sign of the cofactors for IBig) are not '
+                          'under contract']},
 }
